@@ -149,46 +149,27 @@ Theorem C11_distinct_candidates :
 Proof. exact (@distinct_is_identity). Qed.
 
 (* ================================================================ count *)
-(* the full-strength statement: count() of a (possibly sliced) select is the
-   length of the list the select returns *)
-Definition C11_count_full : Prop :=
-  forall dflt s a e rows out,
-    0 <= a -> (forall x, e = Some x -> a <= x) -> ids_unique rows ->
-    select_accepts (sr_sql dflt s) rows out ->
-    run_count s (VInt a, pv_of_opt e) rows = OInt (zlength (window a e out)).
-
-(* refuted by the faithful model (and on the real code: finding
-   count_ignores_empty_window): select()[:0].count() is the full count *)
-Theorem C11_count_window_refuted :
-  exists dflt s a e rows out,
-    0 <= a /\ (forall x, e = Some x -> a <= x) /\ ids_unique rows /\
-    select_accepts (sr_sql dflt s) rows out /\
-    run_count s (VInt a, pv_of_opt e) rows <> OInt (zlength (window a e out)).
-Proof. exact (@count_window_refuted). Qed.
-
-(* guard: no window (start absent or 0, end absent).  Then count() -- also of a
-   distinct select: COUNT(DISTINCT id) -- is the length of the list *)
-Theorem C11_count_partial :
-  forall dflt s ws rows out,
-    falsy ws -> ids_unique rows -> select_accepts (sr_sql dflt s) rows out ->
-    run_count s (ws, VNone) rows = OInt (zlength (window 0 None out)).
-Proof. exact (@count_partial). Qed.
-
+(* count() on EVERY window state (start, end as self.ops.get gives them, None
+   when absent): a select that carries a window -- a non-zero start or any end,
+   the empty window [..:0] included (repaired in /repo ce48805) -- is refused
+   with AssertionError (the suite pins this for limit=2); otherwise count(),
+   also of a distinct select (COUNT(DISTINCT id)), is the number of matching rows *)
 Theorem C11_count :
-  forall s ws rows,
-    falsy ws -> (sr_dist s = true -> ids_unique rows) ->
-    run_count s (ws, VNone) rows = OInt (zlength (matching (sr_clause s) rows)).
-Proof. exact (@count_unsliced). Qed.
+  forall s win rows,
+    (sr_dist s = true -> ids_unique rows) ->
+    run_count s win rows = if sliced win then OAssert else OInt (zlength (matching (sr_clause s) rows)).
+Proof. exact (@count_total). Qed.
 
-(* every other window with a non-zero bound is refused (AssertionError) ... *)
+(* ... which is the length of any list the same select returns *)
+Theorem C11_count_matches_list :
+  forall dflt s win rows out,
+    sliced win = false -> ids_unique rows -> select_accepts (sr_sql dflt s) rows out ->
+    run_count s win rows = OInt (zlength out).
+Proof. exact (@count_of_list). Qed.
+
 Theorem C11_count_sliced_refused :
-  forall s ws we rows, truthy ws || truthy we = true -> run_count s (ws, we) rows = OAssert.
+  forall s win rows, sliced win = true -> run_count s win rows = OAssert.
 Proof. exact (@count_sliced_refused). Qed.
-(* ... and exactly the empty windows [..:0] slip through and are ignored *)
-Theorem C11_count_empty_window_ignored :
-  forall s ws rows, falsy ws -> sr_dist s = false ->
-    run_count s (ws, VInt 0) rows = OInt (zlength (matching (sr_clause s) rows)).
-Proof. exact (@count_empty_window). Qed.
 
 (* ================================================================ sum / min / max / avg *)
 Definition C11_aggregate_full : Prop :=
@@ -411,7 +392,8 @@ Example C11_ex_count_and_aggregates :
   /\ run_agg (mksr (emit_where (WEq CA None)) BNoDefault false false) (VNone, VNone) MMax (RRaw n_s) ex_rows = OAgg ANull
   /\ run_count (sr_call s MDistinct) (VNone, VNone) ex_rows = OInt 3
   /\ run_count s (VInt 0, VInt 2) ex_rows = OAssert
-  /\ run_count s (VInt 0, VInt 0) ex_rows = OInt 3.
+  /\ run_count s (VInt 0, VInt 0) ex_rows = OAssert
+  /\ run_count s (VInt 0, VNone) ex_rows = OInt 3.
 Proof. vm_compute. repeat split; reflexivity. Qed.
 
 Example C11_ex_getone_and_lookups :
@@ -444,11 +426,9 @@ Print Assumptions C11_fk_either_name.
 Print Assumptions C11_selectBy_type_error.
 Print Assumptions C11_distinct.
 Print Assumptions C11_distinct_candidates.
-Print Assumptions C11_count_window_refuted.
-Print Assumptions C11_count_partial.
 Print Assumptions C11_count.
+Print Assumptions C11_count_matches_list.
 Print Assumptions C11_count_sliced_refused.
-Print Assumptions C11_count_empty_window_ignored.
 Print Assumptions C11_aggregate_window_refuted.
 Print Assumptions C11_aggregate_ignores_window.
 Print Assumptions C11_aggregate_partial.
